@@ -1,4 +1,5 @@
 import ShmVerif.Proof.LBWrite
+import ShmVerif.Proof.PipeSys
 /-!
   C06 — a stream is a faithful byte pipe whatever the write and read granularity.
 
@@ -228,6 +229,67 @@ example :
       let (m1, _, peer', res) := flush m' { send := l' } {}
       (res, (moveTo m1 peer').map (fun (m2, p) => (implRun m2 p.recv [.peek 2, .readBytes 7, .discard 1, .readBytes 2]).map (·.2.2)))) =
     some (.shm, some (some [[1, 2], [1, 2, 3, 4, 5, 6, 7], [], [9, 10]])) := by
+  decide
+
+/-! ### a stream PAIR, any number of messages, both directions, both transports: two byte queues -/
+
+open LB in
+/-- **A pair of streams refines two byte queues.** From the memory createBufferManager lays out (any size classes): for
+    EVERY sequence of WriteBytes, WriteByte, Flush (shared-memory transport, or fall-back once the allocator ran dry - the
+    stream then stays in fall-back), readMore, ReadBytes, Peek, Discard and ReleasePreviousRead calls on either end, in any
+    order - any number of messages composed, in flight and half read at the same time, in both directions - in which every
+    reader call finds its bytes buffered (what Stream.readMore waits for): each ReadBytes / Peek returns exactly the next
+    bytes the peer flushed, in flush order; nothing is lost, duplicated, reordered or leaks from the other direction; and at
+    the end the receive buffer plus what is in flight is exactly what was flushed and not yet consumed, the send buffer
+    exactly what was written and not yet flushed. -/
+theorem c06_pair_refines_queues (classes : List (Nat × Nat)) (hpos : ∀ c ∈ classes, 0 < c.1) (ops : List POp)
+    (s : PSys) (outs : List (List Nat)) (hadm : Admissible { m := Mem.create classes } ops)
+    (hrun : prunOut { m := Mem.create classes } ops = some (s, outs)) :
+    outs = (qrunOut {} ops).2 ∧
+    content s.m s.b.recv.sl ++ flightBytes s.m s.b.pending = (qrunOut {} ops).1.ab.flushed ∧
+    content s.m s.a.send.sl = (qrunOut {} ops).1.ab.composed ∧
+    content s.m s.a.recv.sl ++ flightBytes s.m s.a.pending = (qrunOut {} ops).1.ba.flushed ∧
+    content s.m s.b.send.sl = (qrunOut {} ops).1.ba.composed := by
+  obtain ⟨h, ho⟩ := pq_run ops _ s {} outs (PQS.init classes hpos) hadm hrun
+  exact ⟨ho, h.xy.fl, h.xy.co, h.yx.fl, h.yx.co⟩
+
+open LB in
+/-- writer calls never fail and never need a guard: only reader calls are conditioned (on their bytes being buffered) -/
+theorem c06_pair_writer_total {N : Nat} {s : PSys} {q : QSys} (h : PQS N s q) (x : Bool) (d : List Nat) (b : Nat) :
+    (pstep s (.write x d)).isSome = true ∧ (pstep s (.writeByte x b)).isSome = true ∧ (pstep s (.more x)).isSome = true := by
+  obtain ⟨hx, _, _⟩ := h.side x
+  refine ⟨?_, ?_, ?_⟩
+  · by_cases hd : d = []
+    · subst hd
+      have : (s.get x).send.writeBytes s.m [] = some (s.m, (s.get x).send) := by unfold LBuf.writeBytes; simp
+      simp [pstep, this]
+    · obtain ⟨m1, l1, e1, _⟩ := writeBytes_spec s.m (s.get x).send d hx.pi.wf hx.pi.x.wbuf hd
+      simp [pstep, e1]
+  · obtain ⟨m1, l1, e1, _⟩ := writeByte_spec s.m (s.get x).send b hx.pi.wf hx.pi.x.wbuf
+    simp [pstep, e1]
+  · obtain ⟨X', e1, _⟩ := hx.moreStep
+    simp [pstep, e1]
+
+-- non-vacuity: both directions interleaved, three messages from a (13 bytes over two slices, 3 bytes, 1 byte), one from b;
+-- a reads b's message while its own are in flight; b reads across message boundaries
+example :
+    let s0 : LB.PSys := { m := LB.Mem.create [(4, 4), (8, 4)] }
+    let ops : List LB.POp := [.write false [1, 2, 3, 4, 5, 6, 7, 8, 9, 10, 11, 12, 13], .flush false, .write true [50, 51],
+      .write false [21, 22, 23], .flush false, .flush true, .more true, .readBytes true 9, .writeByte false 31, .flush false,
+      .more false, .peek false 2, .readBytes false 2, .more true, .readBytes true 8, .release true]
+    (LB.prunOut s0 ops).map (·.2) = some (LB.qrunOut {} ops).2 ∧
+    (LB.qrunOut {} ops).2 = [[], [], [], [], [], [], [], [1, 2, 3, 4, 5, 6, 7, 8, 9], [], [], [], [50, 51], [50, 51], [],
+      [10, 11, 12, 13, 21, 22, 23, 31], []] := by
+  decide
+
+-- ... and with the allocator exhausted: the second message spills into a heap slice and travels by the connection, the
+-- stream stays in fall-back for the third; order is kept across the switch of transport
+example :
+    let s0 : LB.PSys := { m := LB.Mem.create [(4, 3)] }
+    let ops : List LB.POp := [.write false [1, 2, 3], .flush false, .write false [4, 5, 6, 7, 8, 9, 10, 11, 12, 13], .flush false,
+      .write false [14], .flush false, .more true, .readBytes true 14]
+    (LB.prunOut s0 ops).map (fun r => (r.2, r.1.a.inFallback)) = some ((LB.qrunOut {} ops).2, true) ∧
+    ((LB.qrunOut {} ops).2.getLast? = some [1, 2, 3, 4, 5, 6, 7, 8, 9, 10, 11, 12, 13, 14]) := by
   decide
 
 end Props.C06
